@@ -6,4 +6,6 @@ export CARGO_NET_OFFLINE=true
 H="$(pwd)/harness"
 RUSTFLAGS="--cfg orx_concurrent_iter_verif" cargo build --release --manifest-path "$H/Cargo.toml" --target-dir "$H/target-sched" 2>&1 | tail -2
 cargo build --release --manifest-path "$H/Cargo.toml" --target-dir "$H/target" 2>&1 | tail -2
+cargo build --profile twin-dbg --manifest-path "$H/Cargo.toml" --target-dir "$H/target" 2>&1 | tail -1
+cargo build --profile twin-rel --manifest-path "$H/Cargo.toml" --target-dir "$H/target" 2>&1 | tail -1
 echo "setup done"
